@@ -887,6 +887,64 @@ func (it *Interp) lookup(fr *frame, ci *cinstr, ins *ssa.Lookup, x Value, k Valu
 	panic(fmt.Sprintf("lookup on %T", x))
 }
 
+// termsEqual: structural equality of two small terms.
+func termsEqual(a, b *Term, depth int) bool {
+	if a == b {
+		return true
+	}
+	if a == nil || b == nil || depth == 0 || a.op != b.op || a.w != b.w || a.c != b.c || a.sv != b.sv || len(a.tbl) != len(b.tbl) {
+		return false
+	}
+	if a.op == OpSym {
+		return true // same symbol number (compared through c above)
+	}
+	return termsEqual(a.x, b.x, depth-1) && termsEqual(a.y, b.y, depth-1) && termsEqual(a.z, b.z, depth-1)
+}
+
+// sliceConstTable: s[lo:lo+k] of a constant string with a symbolic lo and a small constant k (the
+// digit-pair tables of strconv) becomes k table look-ups instead of a fork per value of lo.
+func (it *Interp) sliceConstTable(fr *frame, ci *cinstr, xv Str) (Value, bool) {
+	if it.spec > 0 || it.ps == nil || ci.ops[1].kind == okNilValue || ci.ops[2].kind == okNilValue || len(xv.b) == 0 || len(xv.b) > 4096 {
+		return nil, false
+	}
+	loT, ok1 := it.get(fr, &ci.ops[1]).(*Term)
+	hiT, ok2 := it.get(fr, &ci.ops[2]).(*Term)
+	if !ok1 || !ok2 || loT.op == OpConst || hiT.op == OpConst {
+		return nil, false
+	}
+	k := -1
+	if termsEqual(hiT, loT, 8) {
+		k = 0
+	} else if hiT.op == OpAdd && hiT.y != nil && hiT.y.op == OpConst && hiT.y.c <= 8 && termsEqual(hiT.x, loT, 8) {
+		k = int(hiT.y.c)
+	} else if hiT.op == OpAdd && hiT.x != nil && hiT.x.op == OpConst && hiT.x.c <= 8 && termsEqual(hiT.y, loT, 8) {
+		k = int(hiT.x.c)
+	}
+	if k < 0 || k > len(xv.b) {
+		return nil, false
+	}
+	tbl := make([]uint64, len(xv.b))
+	for i, b := range xv.b {
+		t, ok := b.(*Term)
+		if !ok || t.op != OpConst {
+			return nil, false
+		}
+		tbl[i] = t.c
+	}
+	// lo in [0, len-k] (an unsigned comparison also rejects negative lo)
+	if it.branch(fr, mkBin(OpUlt, mkConst(loT.w, uint64(len(xv.b)-k)), loT)) {
+		it.goPanicf(fr, "slice bounds out of range [symbolic:+%d] with length %d", k, len(xv.b))
+	}
+	if k == 0 {
+		return Str{}, true
+	}
+	out := make([]Value, k)
+	for j := 0; j < k; j++ {
+		out[j] = mkTbl(tbl, 8, mkBin(OpAdd, loT, mkConst(loT.w, uint64(j))))
+	}
+	return Str{b: out, obj: it.newObj(int64(k), "table slice")}, true
+}
+
 func (it *Interp) slice(fr *frame, ci *cinstr, ins *ssa.Slice) Value {
 	x := it.get(fr, &ci.ops[0])
 	geti := func(i int, def int) int {
@@ -897,6 +955,9 @@ func (it *Interp) slice(fr *frame, ci *cinstr, ins *ssa.Slice) Value {
 	}
 	switch xv := x.(type) {
 	case Str:
+		if v, ok := it.sliceConstTable(fr, ci, xv); ok {
+			return v
+		}
 		lo := geti(1, 0)
 		hi := geti(2, len(xv.b))
 		if lo < 0 || hi < lo || hi > len(xv.b) {
